@@ -42,7 +42,7 @@ pub struct StepOut {
 
 /// Delivers `m` to the real sign and to the model and compares every observable.
 pub fn step(pair: &mut Pair, m: &RefMsg) -> StepOut {
-    let lib = refs::from_ref(m);
+    let lib = refs::from_ref_either(m);
     let sign = &mut pair.sign;
     let r = catch(|| sign.process_message(&lib).map(|x| refs::to_ref(&x)));
     let want = pair.model.step(m);
